@@ -243,6 +243,11 @@ pub open spec fn events_xml(b: Seq<TelemetryEvent>) -> Seq<char>
 pub open spec fn xml_of(b: Seq<TelemetryEvent>) -> Seq<char> {
     "<?xml version=\"1.0\"?><TelemetryData version=\"1.0\"><Provider id=\"FFF0196F-EE4C-4EAF-9AA5-776F622DEB4F\">"@ + events_xml(b) + "</Provider></TelemetryData>"@
 }
+pub broadcast proof fn lemma_xml_nonempty(b: Seq<TelemetryEvent>)
+    ensures #[trigger] xml_of(b).len() > 0
+{
+    reveal_strlit("<?xml version=\"1.0\"?><TelemetryData version=\"1.0\"><Provider id=\"FFF0196F-EE4C-4EAF-9AA5-776F622DEB4F\">");
+}
 /// size in bytes of the document (UTF-8), the quantity the 64 KiB limit is about
 pub open spec fn xml_len(b: Seq<TelemetryEvent>) -> nat { utf8_len(xml_of(b)) }
 pub open spec fn LIMIT() -> nat { 65536 }
@@ -340,10 +345,63 @@ pub proof fn lemma_cnt_concat(a: Seq<TelemetryEvent>, b: Seq<TelemetryEvent>, t:
     if b.len() == 0 { assert(a + b =~= a); }
     else { assert((a + b).drop_last() =~= a + b.drop_last()); lemma_cnt_concat(a, b.drop_last(), t); }
 }
-pub proof fn lemma_cnt_push(a: Seq<TelemetryEvent>, x: TelemetryEvent, t: TelemetryEvent)
-    ensures cnt(a.push(x), t) == cnt(a, t) + (if x == t { 1nat } else { 0nat })
+pub broadcast proof fn lemma_cnt_push(a: Seq<TelemetryEvent>, x: TelemetryEvent, t: TelemetryEvent)
+    ensures #[trigger] cnt(a.push(x), t) == cnt(a, t) + (if x == t { 1nat } else { 0nat })
 {
     assert(a.push(x).drop_last() =~= a);
+}
+pub broadcast proof fn lemma_tevs_push(es: Seq<Event>, e: Event, vm: VmMetaData)
+    ensures #[trigger] tevs(es.push(e), vm) == tevs(es, vm).push(tev_of(e, vm))
+{
+    assert(es.push(e).drop_last() =~= es);
+}
+pub broadcast proof fn lemma_flat_push_cnt(bs: Seq<Seq<TelemetryEvent>>, d: Seq<TelemetryEvent>, t: TelemetryEvent)
+    ensures #[trigger] cnt(flat(bs.push(d)), t) == cnt(flat(bs), t) + cnt(d, t)
+{
+    assert(bs.push(d).drop_last() =~= bs);
+    lemma_cnt_concat(flat(bs), d, t);
+}
+/// a one-element batch is the singleton of its element
+pub broadcast proof fn lemma_singleton(s: Seq<TelemetryEvent>)
+    ensures s.len() == 1 ==> s == seq![s[0]], #[trigger] xml_len(s) >= 0
+{
+    if s.len() == 1 { assert(s =~= seq![s[0]]); }
+}
+pub broadcast proof fn lemma_push_keeps_prefix<A>(s: Seq<A>, x: A, n: int)
+    ensures 0 <= n <= s.len() ==> #[trigger] s.push(x).subrange(0, n) == s.subrange(0, n)
+{
+    if 0 <= n <= s.len() { assert(s.push(x).subrange(0, n) =~= s.subrange(0, n)); }
+}
+pub broadcast group group_send_events { lemma_cnt_push, lemma_tevs_push, lemma_flat_push_cnt, lemma_singleton, lemma_push_keeps_prefix }
+
+pub proof fn lemma_flat_concat(a: Seq<Seq<TelemetryEvent>>, b: Seq<Seq<TelemetryEvent>>)
+    ensures flat(a + b) == flat(a) + flat(b)
+    decreases b.len()
+{
+    if b.len() == 0 { assert(a + b =~= a); assert(flat(a) + flat(b) =~= flat(a)); }
+    else {
+        assert((a + b).drop_last() =~= a + b.drop_last());
+        lemma_flat_concat(a, b.drop_last());
+        assert((flat(a) + flat(b.drop_last())) + b.last() =~= flat(a) + (flat(b.drop_last()) + b.last()));
+    }
+}
+/// from the whole-trace accounting kept by the loops to the statement about the batches of this call
+pub proof fn lemma_new_batches(o: Trace, f: Trace, input: Seq<TelemetryEvent>)
+    requires
+        o.batches.len() <= f.batches.len(), f.batches.subrange(0, o.batches.len() as int) == o.batches, f.wf(),
+        forall|t: TelemetryEvent| cnt(flat(f.batches), t) <= cnt(flat(o.batches), t) + #[trigger] cnt(input, t),
+        forall|t: TelemetryEvent| cnt(flat(f.batches), t) < cnt(flat(o.batches), t) + #[trigger] cnt(input, t) ==> oversize_alone(t),
+    ensures
+        delivered_at_most_once(input, new_batches(o, f)),
+        dropped_only_if_oversize(input, new_batches(o, f)),
+        forall|i: int| 0 <= i < new_batches(o, f).len() ==> batch_ok(#[trigger] new_batches(o, f)[i]),
+{
+    let nb = new_batches(o, f);
+    assert(f.batches =~= o.batches + nb);
+    lemma_flat_concat(o.batches, nb);
+    assert forall|t: TelemetryEvent| #[trigger] cnt(flat(nb), t) <= cnt(input, t) by { lemma_cnt_concat(flat(o.batches), flat(nb), t); }
+    assert forall|t: TelemetryEvent| #[trigger] cnt(flat(nb), t) < cnt(input, t) implies oversize_alone(t) by { lemma_cnt_concat(flat(o.batches), flat(nb), t); }
+    assert forall|i: int| 0 <= i < nb.len() implies batch_ok(#[trigger] nb[i]) by { assert(nb[i] == f.batches[o.batches.len() + i]); }
 }
 
 // STAGE1 placeholder
